@@ -397,6 +397,9 @@ func goroutineExists(id string) bool {
 
 // shutdown releases what a finished case still holds (w.closing is set: nothing is logged)
 func (w *world) shutdown() {
+	for _, p := range w.probes {
+		w.releaseProbe(p)
+	}
 	for _, s := range w.svcs {
 		if s.svc == nil {
 			continue
@@ -446,6 +449,14 @@ func (w *world) unblock() {
 			default:
 				break drain
 			}
+		}
+	}
+	for _, p := range w.probes {
+		if p.held {
+			func() {
+				defer func() { recover() }()
+				close(p.resume)
+			}()
 		}
 	}
 	go func() {
